@@ -16,8 +16,8 @@ Definition stack_cost (stk : list frame) : nat := list_sum (map frame_cost stk).
 
 Definition pc_cost (p : pc) : nat :=
   match p with
-  | PEnter => 3
-  | PWait => 2
+  | PEnter => 4
+  | PWait => 3
   | PLookup => 2
   | PInsert => 1
   | PRefLookup stk => stack_cost stk
@@ -32,7 +32,7 @@ Definition pc_cost (p : pc) : nat :=
 Definition thread_cost (B : nat) (th : thread) : nat :=
   match t_calls th with
   | [] => 0
-  | _ :: rest => pc_cost (t_pc th) + B + (3 + B) * length rest
+  | _ :: rest => pc_cost (t_pc th) + B + (4 + B) * length rest
   end.
 
 Definition mu (g : graph) (U : list name) (st : state) : nat :=
@@ -189,8 +189,11 @@ Lemma gstep_stutter d k g t st : ~ can_step st t -> gstep d k g t st = st.
 Proof.
   intros H. unfold gstep. destruct (nth_error (s_thr st) t) as [th|] eqn:Ht; [|reflexivity].
   destruct (t_calls th) as [|n rest] eqn:Hc; [reflexivity|].
-  destruct (t_pc th) eqn:Hp; try reflexivity; exfalso; apply H; exists th, n, rest;
-    (split; [exact Ht|]); (split; [exact Hc|]); rewrite Hp; discriminate.
+  destruct (t_pc th) eqn:Hp;
+    try (exfalso; apply H; exists th, n, rest; split; [exact Ht|]; split; [exact Hc|]; left; rewrite Hp; discriminate).
+  (* PWait *)
+  destruct d; [reflexivity|]. destruct (s_lock st) eqn:El; [reflexivity|].
+  exfalso; apply H; exists th, n, rest. split; [exact Ht|]. split; [exact Hc|]. right. exact El.
 Qed.
 
 Lemma In_skipn {A} (l : list A) j x : In x (skipn j l) -> In x l.
@@ -200,18 +203,18 @@ Proof.
 Qed.
 
 Lemma thread_cost_finish B th n rest res :
-  t_calls th = n :: rest -> thread_cost B (finish_thread th res) = (3 + B) * length rest.
+  t_calls th = n :: rest -> thread_cost B (finish_thread th res) = (4 + B) * length rest.
 Proof.
   intros Hc. unfold thread_cost, finish_thread. cbn [t_calls t_pc]. rewrite Hc. cbn [tl].
   destruct rest as [|m r]; cbn [length pc_cost]; lia.
 Qed.
 
 Lemma thread_cost_with_pc B th n rest p :
-  t_calls th = n :: rest -> thread_cost B (with_pc th p) = pc_cost p + B + (3 + B) * length rest.
+  t_calls th = n :: rest -> thread_cost B (with_pc th p) = pc_cost p + B + (4 + B) * length rest.
 Proof. intros Hc. unfold thread_cost, with_pc. cbn [t_calls t_pc]. rewrite Hc. reflexivity. Qed.
 
 Lemma thread_cost_at B th n rest :
-  t_calls th = n :: rest -> thread_cost B th = pc_cost (t_pc th) + B + (3 + B) * length rest.
+  t_calls th = n :: rest -> thread_cost B th = pc_cost (t_pc th) + B + (4 + B) * length rest.
 Proof. intros Hc. unfold thread_cost. rewrite Hc. reflexivity. Qed.
 
 Lemma classic_can_step st t : can_step st t \/ ~ can_step st t.
@@ -220,8 +223,10 @@ Proof.
   - destruct (t_calls th) as [|n rest] eqn:Hc.
     + right. intros (th' & n' & r' & H1 & H2 & _). inversion H1; subst. congruence.
     + destruct (t_pc th) eqn:Hp.
-      2: { right. intros (th' & n' & r' & H1 & _ & H3). inversion H1; subst. congruence. }
-      all: left; exists th, n, rest; repeat split; try assumption; rewrite Hp; discriminate.
+      2: { destruct (s_lock st) eqn:El.
+           - right. intros (th' & n' & r' & H1 & _ & [H3|H3]); [inversion H1; subst; congruence | discriminate].
+           - left. exists th, n, rest. repeat split; try assumption. right. reflexivity. }
+      all: left; exists th, n, rest; repeat split; try assumption; left; rewrite Hp; discriminate.
   - right. intros (th' & n' & r' & H1 & _). discriminate.
 Qed.
 
@@ -258,23 +263,10 @@ Proof.
     (* the map after the call: unchanged, or rolled back — never costlier than the whole universe *)
     assert (Ecm : unbound_cost g U (cmap (finish_shared res sh')) <= unbound_cost g U (cmap sh') \/
                   unbound_cost g U (cmap (finish_shared res sh')) <= B).
-    { destruct res; [right; apply unbound_le | left; cbn; lia | left; cbn; lia]. }
+    { destruct res; [right; apply unbound_le | right; apply unbound_le | left; cbn; lia | left; cbn; lia]. }
     pose proof (list_sum_set_nth (thread_cost B) (s_thr st) t th (finish_thread th res) Ht) as S.
     rewrite (thread_cost_finish B _ _ _ res Hc) in S.
-    unfold release; cbn [s_sh s_lock s_waitq s_thr].
-    destruct (s_waitq st) as [|w q] eqn:Eq; [cbn [s_sh s_thr]; lia|].
-    destruct (gi_waitq _ _ _ _ I) as [_ Hw].
-    assert (Hwin : In w (s_waitq st)) by (rewrite Eq; left; reflexivity).
-    apply Hw in Hwin. destruct Hwin as (tw & Htw & Hpw).
-    assert (Hwt : w <> t) by (intros ->; rewrite Ht in Htw; inversion Htw; subst tw; apply Hin; right; exact Hpw).
-    rewrite nth_error_set_nth_neq by congruence. rewrite Htw. cbn [s_sh s_thr reset_reg cmap].
-    pose proof (gi_wait_calls _ _ _ _ I _ _ Htw Hpw) as Hcw.
-    destruct (t_calls tw) as [|nw restw] eqn:Ecw; [congruence|].
-    assert (Htw1 : nth_error (set_nth (s_thr st) t (finish_thread th res)) w = Some tw)
-      by (rewrite nth_error_set_nth_neq by congruence; exact Htw).
-    pose proof (list_sum_set_nth (thread_cost B) _ w tw (with_pc tw PLookup) Htw1) as S2.
-    rewrite (thread_cost_with_pc B _ _ _ _ Ecw) in S2.
-    rewrite (thread_cost_at B _ _ _ Ecw), Hpw in S2. cbn [pc_cost] in S2. lia.
+    unfold release; cbn [s_sh s_lock s_waitq s_thr]. lia.
 Qed.
 
 (* every step of a thread that can step decreases the measure *)
@@ -282,7 +274,7 @@ Lemma gstep_decreases st t :
   ginv k g calls st -> can_step st t -> mu g U (gstep Guarded k g t st) < mu g U st.
 Proof.
   intros I (th & n & rest & Ht & Hc & Hnw).
-  destruct (t_pc th) eqn:Hp; try congruence.
+  destruct (t_pc th) eqn:Hp.
   - (* PEnter *)
     unfold gstep. rewrite Ht, Hc, Hp. unfold mu. set (B := list_sum (map (node_cost g) U)).
     pose proof (thread_cost_at B _ _ _ Hc) as Cth.
@@ -291,6 +283,12 @@ Proof.
       rewrite (thread_cost_with_pc B _ _ _ _ Hc) in S. rewrite Hp in Cth. cbn [pc_cost] in *. lia.
     + pose proof (list_sum_set_nth (thread_cost B) (s_thr st) t th (with_pc th PLookup) Ht) as S.
       rewrite (thread_cost_with_pc B _ _ _ _ Hc) in S. rewrite Hp in Cth. cbn [pc_cost] in *. lia.
+  - (* PWait: the lock is free, the blocked thread takes it *)
+    destruct Hnw as [Hnw|El]; [congruence|].
+    unfold gstep. rewrite Ht, Hc, Hp, El. unfold mu. set (B := list_sum (map (node_cost g) U)).
+    pose proof (thread_cost_at B _ _ _ Hc) as Cth. cbn [s_sh s_thr reset_reg cmap].
+    pose proof (list_sum_set_nth (thread_cost B) (s_thr st) t th (with_pc th PLookup) Ht) as S.
+    rewrite (thread_cost_with_pc B _ _ _ _ Hc) in S. rewrite Hp in Cth. cbn [pc_cost] in *. lia.
   - eapply gstep_decreases_inside; eauto. rewrite Hp. intros [E|E]; discriminate E.
   - eapply gstep_decreases_inside; eauto. rewrite Hp. intros [E|E]; discriminate E.
   - eapply gstep_decreases_inside; eauto. rewrite Hp. intros [E|E]; discriminate E.
@@ -336,7 +334,8 @@ Variables (k : nat) (g : graph) (calls : list (list name)).
 Let U := universe g calls.
 
 (* no deadlock: while a call is outstanding some thread can step — the lock holder if
-   the lock is held, otherwise any thread with a call left *)
+   the lock is held, otherwise ANY thread with a call left (at the entry or blocked in Lock():
+   no assumption on who is granted the lock) *)
 Lemma progress st :
   ginv k g calls st -> all_done st = false -> exists t, t < length calls /\ can_step st t.
 Proof.
@@ -355,13 +354,11 @@ Proof.
     exists h. split.
     + rewrite <- (gi_len _ _ _ _ I). eapply nth_error_lt; eauto.
     + exists thh, n, rest. split; [exact Hh|]. split; [exact Hch|].
-      intros Hp. rewrite Hp in Ti. exact Ti.
-  - destruct (gi_free _ _ _ _ I El) as (_ & _ & Hall).
-    exists t. split.
+      left. intros Hp. rewrite Hp in Ti. exact Ti.
+  - exists t. split.
     + rewrite <- (gi_len _ _ _ _ I). eapply nth_error_lt; eauto.
     + destruct (t_calls th) as [|n rest] eqn:Ec; [congruence|].
-      exists th, n, rest. split; [exact Ht|]. split; [exact Ec|].
-      rewrite (Hall _ _ Ht). discriminate.
+      exists th, n, rest. split; [exact Ht|]. split; [exact Ec|]. right. exact El.
 Qed.
 
 Lemma run_mono sched : forall st, ginv k g calls st -> mu g U (run_from Guarded k g sched st) <= mu g U st.
@@ -406,7 +403,7 @@ End Fair.
 (* ---- the bound, explicitly ---------------------------------------------------------- *)
 
 Lemma sum_init B calls :
-  list_sum (map (thread_cost B) (map init_thread calls)) = (3 + B) * length (concat calls).
+  list_sum (map (thread_cost B) (map init_thread calls)) = (4 + B) * length (concat calls).
 Proof.
   induction calls as [|c cs IH]; [cbn; lia|].
   cbn [map concat]. rewrite list_sum_cons, IH, app_length.
